@@ -16,7 +16,7 @@ BUDGET = {"quick": 700, "thorough": 16000}
 SHARDS = {"quick": 8, "thorough": 16}
 RULE = (
     "case = SMC run (table proposal/likelihood, kernel double, any schedule option, namespace, width, n_final_samples) "
-    "plus a checkpoint cadence, a generated checkpoint index to resume from and the form of the checkpoint (bytes / dict). "
+    "plus a checkpoint cadence, a generated checkpoint index to resume from and the form of the checkpoint (bytes / dict / the state object handed to the callback, kept in memory while the run continued). "
     "Oracle on the uninterrupted AND on the resumed run: every populated series has exactly one entry per iteration "
     "(kernel series: one per kernel invocation = iterations + 1 for a final enlargement); sample_history has iterations+1 "
     "entries, entry t carries beta_t (0 first), N particles; ess[t], ess_target[t], eff_target[t], log_norm_ratio[t] equal "
@@ -35,7 +35,7 @@ def _case(draw):
     c = draw(sc.table_case(kmin=-1))
     c["ckpt_every"] = draw(st.integers(1, 3))
     c["resume_pick"] = draw(st.integers(0, 50))
-    c["resume_form"] = draw(st.sampled_from(["bytes", "dict"]))
+    c["resume_form"] = draw(st.sampled_from(["bytes", "dict", "live-dict"]))
     return c
 
 
@@ -114,8 +114,11 @@ def check_history(case, r, ctx, tag, labels):
 def run_case(case, ctx):
     blobs = []
 
+    live = []
+
     def cb(state):
         blobs.append((state.get("iteration"), pickle.dumps(state)))
+        live.append(state)  # the very object handed to the callback, kept while the run goes on
 
     r = sc.run(case, extra_kwargs={"checkpoint_callback": cb, "checkpoint_every": case["ckpt_every"]})
     labels = [case["ns"], case["width"], case["kind"], case["kernel"], case["route"],
@@ -127,7 +130,10 @@ def run_case(case, ctx):
     resumed_nontrivial = False
     if blobs:
         it, blob = blobs[case["resume_pick"] % len(blobs)]
-        src = blob if case["resume_form"] == "bytes" else pickle.loads(blob)
+        if case["resume_form"] == "live-dict":
+            src = live[case["resume_pick"] % len(blobs)]
+        else:
+            src = blob if case["resume_form"] == "bytes" else pickle.loads(blob)
         r2 = sc.run(case, extra_kwargs={"resume_from": src})
         labels.append(f"resume:{case['resume_form']}")
         if r2.error is not None:
